@@ -66,7 +66,14 @@ type heldCfg struct {
 
 func heldTier(r *ev.Run, newState bool, label, sweepLabel string) heldCfg {
 	if r.Quick() {
-		return heldCfg{newState: newState, label: label, sweepLabel: sweepLabel, window: 2, tailOnly: true}
+		// quick: readers obtained at the last two states of a history and held across two operations in the
+		// mixed-version configuration, at the last state and across one operation in the others (the sweeps of held
+		// readers are the most expensive part of this check; the thorough tier holds every reader to the end)
+		w := 1
+		if strings.HasPrefix(label, "0.14.0->0.14.1@2") {
+			w = 2
+		}
+		return heldCfg{newState: newState, label: label, sweepLabel: sweepLabel, window: w, tailOnly: true}
 	}
 	return heldCfg{newState: newState, label: label, sweepLabel: sweepLabel, window: 1 << 20}
 }
